@@ -1,18 +1,15 @@
 (* M for C04 (time expressions): transcription of ttconv/imsc/utils.py parse_time_expression and of the
    ttp:frameRate / ttp:frameRateMultiplier / ttp:tickRate extractors of ttconv/imsc/attributes.py.
-   The regular expressions are transcribed as recognisers over code points:
+   The regular expressions (compiled with re.ASCII, anchored with ^ and \Z) are transcribed as recognisers over code points:
 
-     _OFFSET_FRAME_RE  ^(\d+(?:\.\d+)?)f          (no $: any suffix is accepted, as in the code)
-     _OFFSET_TICK_RE   ^(\d+(?:\.\d+)?)t$         likewise ms, s, m, h
-     _CLOCK_TIME_FRACTION_RE  ^(\d{2,}):(\d\d):(\d\d(?:\.\d+)?)$
-     _CLOCK_TIME_FRAMES_RE    ^(\d{2,}):(\d\d):(\d\d):(\d{2,})$
+     _OFFSET_FRAME_RE  ^(\d+(?:\.\d+)?)f\Z         likewise t, ms, s, m, h
+     _CLOCK_TIME_FRACTION_RE  ^(\d{2,}):(\d\d):(\d\d(?:\.\d+)?)\Z
+     _CLOCK_TIME_FRAMES_RE    ^(\d{2,}):(\d\d):(\d\d):(\d{2,})\Z
 
-   Python's `$` also matches before a final line feed; that is transcribed ([at_end]).  `\d` is
-   transcribed for the ASCII digits only (Python's also matches other Unicode decimal digits; the
-   harness generates ASCII digits, see the note in harness/c04.py).  Greedy matching of these patterns
-   is deterministic: backtracking can never succeed where the greedy scan fails, because the character
-   following a maximal digit run is not a digit.
-   Fractions are Q; ZeroDivisionError (Fraction / 0) is an explicit outcome. *)
+   Greedy matching of these patterns is deterministic: backtracking can never succeed where the greedy scan fails, because
+   the character following a maximal digit run is not a digit.
+   Fractions are Q; ZeroDivisionError (Fraction / 0, possible only when parse_time_expression is called with a zero rate:
+   the attribute extractors never return one) is an explicit outcome. *)
 From TT Require Import Base.Prelude Base.ImscXml.
 From Coq Require Import QArith.
 Local Open Scope Z_scope.
@@ -56,16 +53,16 @@ Fixpoint strip_prefix (p s : text) : option text :=
   | _ :: _, [] => None
   end.
 
-(* `$`: end of string, or just before a final "\n" *)
+(* `\Z`: end of string *)
 Definition at_end (s : text) : bool :=
-  match s with [] => true | [c] => c =? 10 | _ => false end.
+  match s with [] => true | _ => false end.
 
-(* ^(\d+(?:\.\d+)?)<unit>  followed by $ when [anchored] *)
-Definition match_offset (unit : text) (anchored : bool) (s : text) : option Q :=
+(* ^(\d+(?:\.\d+)?)<unit>\Z *)
+Definition match_offset (unit : text) (s : text) : option Q :=
   match scan_number s with
   | Some (ip, fp, r) =>
       match strip_prefix unit r with
-      | Some r' => if anchored then (if at_end r' then Some (dec_value ip fp) else None) else Some (dec_value ip fp)
+      | Some r' => if at_end r' then Some (dec_value ip fp) else None
       | None => None
       end
   | None => None
@@ -117,23 +114,23 @@ Inductive tres := TVal (q : Q) | TBad | TZeroDiv.
 Definition qdiv_res (a b : Q) : tres := if Qeq_bool b 0%Q then TZeroDiv else TVal (a / b)%Q.
 
 (* parse_time_expression(tick_rate, frame_rate, time_expr): same order of tests as the code *)
-Definition parse_time_x (tr : option Z) (fr : option Q) (s : text) : tres :=
-  match match_offset U_f false s, fr with
+Definition parse_time_x (tr : option Q) (fr : option Q) (s : text) : tres :=
+  match match_offset U_f s, fr with
   | Some v, Some f => qdiv_res v f
   | _, _ =>
-  match match_offset U_t true s, tr with
-  | Some v, Some t => qdiv_res v (inject_Z t)
+  match match_offset U_t s, tr with
+  | Some v, Some t => qdiv_res v t
   | _, _ =>
-  match match_offset U_ms true s with
+  match match_offset U_ms s with
   | Some v => TVal (v / inject_Z 1000)%Q
   | None =>
-  match match_offset U_s true s with
+  match match_offset U_s s with
   | Some v => TVal v
   | None =>
-  match match_offset U_m true s with
+  match match_offset U_m s with
   | Some v => TVal (v * inject_Z 60)%Q
   | None =>
-  match match_offset U_h true s with
+  match match_offset U_h s with
   | Some v => TVal (v * inject_Z 3600)%Q
   | None =>
   match match_clock_fraction s with
@@ -146,44 +143,48 @@ Definition parse_time_x (tr : option Z) (fr : option Q) (s : text) : tres :=
   | _, _ => TBad
   end end end end end end end end.
 
-(* the value, or None where the code raises (ValueError is caught and logged by the attribute readers;
-   ZeroDivisionError is not caught) *)
-Definition parse_time (tr : option Z) (fr : option Q) (s : text) : option Q :=
+(* the value, or None where the code raises (ValueError is caught and logged by the attribute readers) *)
+Definition parse_time (tr : option Q) (fr : option Q) (s : text) : option Q :=
   match parse_time_x tr fr s with TVal q => Some q | _ => None end.
 
 (* ---- ttp:frameRate, ttp:frameRateMultiplier, ttp:tickRate ---------------------------- *)
-(* re.match(r"(\d+)", s): a digit run at the head, anything after it *)
-Definition leading_int (s : text) : option Z :=
-  let '(d, _) := span_digits s in match d with [] => None | _ :: _ => Some (digits_val 0 d) end.
-
-(* re.match(r"(\d+) (\d+)", s) *)
-Definition leading_int_pair (s : text) : option (Z * Z) :=
-  let '(a, r) := span_digits s in
-  match a, r with
-  | _ :: _, 32 :: r' =>
-      let '(b, _) := span_digits r' in
-      match b with [] => None | _ :: _ => Some (digits_val 0 a, digits_val 0 b) end
+(* re.fullmatch(r"(\d+)", s, re.ASCII) and the value is > 0 *)
+Definition pos_digits (s : text) : option Z :=
+  let '(d, r) := span_digits s in
+  match d, r with
+  | _ :: _, [] => let v := digits_val 0 d in if 0 <? v then Some v else None
   | _, _ => None
   end.
 
-(* FrameRateAttribute.extract: None = ZeroDivisionError from Fraction(n, 0) *)
-Definition extract_frame_rate (attrs : list (qname * text)) : option Q :=
-  let fr := match get_attr attrs A_frameRate with
-            | Some raw => match leading_int raw with Some n => inject_Z n | None => inject_Z 30 end
-            | None => inject_Z 30
-            end in
-  match get_attr attrs A_frameRateMultiplier with
-  | Some raw =>
-      match leading_int_pair raw with
-      | Some (a, b) => if b =? 0 then None else Some (fr * (inject_Z a / inject_Z b))%Q
-      | None => Some (fr * 1)%Q
-      end
-  | None => Some (fr * 1)%Q
+(* re.fullmatch(r"(\d+) (\d+)", s, re.ASCII): the two integers (not yet tested for zero) *)
+Definition int_pair (s : text) : option (Z * Z) :=
+  let '(a, r) := span_digits s in
+  match a, r with
+  | _ :: _, 32 :: r' =>
+      let '(b, r'') := span_digits r' in
+      match b, r'' with _ :: _, [] => Some (digits_val 0 a, digits_val 0 b) | _, _ => None end
+  | _, _ => None
   end.
 
-(* TickRateAttribute.extract: the default is 1 whatever ttp:frameRate says *)
-Definition extract_tick_rate (attrs : list (qname * text)) : Z :=
-  match get_attr attrs A_tickRate with
-  | Some raw => match leading_int raw with Some n => n | None => 1 end
-  | None => 1
+(* FrameRateAttribute.extract: a malformed or zero ttp:frameRate is ignored (30), a malformed ttp:frameRateMultiplier or one with
+   a zero term is ignored (1 1) *)
+Definition frame_rate_attr (attrs : list (qname * text)) : option Z :=
+  match get_attr attrs A_frameRate with Some raw => pos_digits raw | None => None end.
+Definition extract_frame_rate (attrs : list (qname * text)) : Q :=
+  let fr := match frame_rate_attr attrs with Some n => inject_Z n | None => inject_Z 30 end in
+  match get_attr attrs A_frameRateMultiplier with
+  | Some raw =>
+      match int_pair raw with
+      | Some (a, b) => if (0 <? a) && (0 <? b) then (fr * (inject_Z a / inject_Z b))%Q else (fr * 1)%Q
+      | None => (fr * 1)%Q
+      end
+  | None => (fr * 1)%Q
+  end.
+
+(* TickRateAttribute.extract: the attribute if it is a positive integer; else the effective frame rate when ttp:frameRate is
+   specified (and well-formed), else 1 *)
+Definition extract_tick_rate (attrs : list (qname * text)) : Q :=
+  match (match get_attr attrs A_tickRate with Some raw => pos_digits raw | None => None end) with
+  | Some n => inject_Z n
+  | None => match frame_rate_attr attrs with Some _ => extract_frame_rate attrs | None => 1%Q end
   end.
